@@ -65,6 +65,7 @@ func scenarios(thorough bool) []Scenario {
 		{Name: "S3c-known-client-two-same", Prelude: []Op{P("A", -time.Second, "S1")}, Threads: [][]Op{{P("A", 0, "S1")}, {P("A", 0, "S1")}}},
 		{Name: "S4-two-services-then-replay", Threads: [][]Op{{P("A", 0, "S1"), P("A", 0, "S1")}, {P("A", 0, "S2")}}},
 		{Name: "S4b-two-services-sequential", Prelude: []Op{P("A", 0, "S1"), P("A", 0, "S2")}, Threads: [][]Op{{P("A", 0, "S1")}, {P("A", 0, "S2")}}},
+		{Name: "S4c-service-names-differing-in-case", Threads: [][]Op{{P("A", 0, "S1"), P("A", 0, "S1")}, {P("A", 0, "s1")}}},
 		{Name: "S5-late-window-cleanup", Prelude: []Op{P("A", late, "S1")}, Threads: [][]Op{{A(skew + 1)}, {P("A", late, "S1")}}},
 		{Name: "S5b-half-skew-advances", Threads: [][]Op{{P("A", 0, "S1")}, {A(skew / 2), A(skew / 2)}, {P("A", 0, "S1")}}},
 		{Name: "S6-insert-vs-cleanup", Prelude: []Op{P("A", -skew, "S1")}, Threads: [][]Op{{A(skew + 1)}, {P("A", late, "S1"), P("A", late, "S1")}}},
